@@ -49,6 +49,7 @@ type stressRes struct {
 	Probes     int64 `json:"probes"`     // probe handlers registered
 	Behind     int64 `json:"behind"`     // lookups that exposed a cluster set newer than what a handler registered before the lookup had seen
 	Shrinks    int64 `json:"shrinks"`    // requests of a type listing fewer names than the previous request of that type on the same stream (no evictions here)
+	Quiet      bool  `json:"quiet"`      // the end-of-run quiescence was reached (the wire-stale check ran)
 	WireStale  int64 `json:"wire_stale"` // types whose last request on the live stream differs from the interest set once everything is quiet
 	Unfinished bool  `json:"unfinished"` // some goroutine had not returned 10 s after the stop signal
 }
@@ -138,6 +139,7 @@ func init() {
 		setTarget(m)
 		defer setTarget(nil)
 		names := []string{"c0", "c1", "c2", "c3", "c4", "c5"}
+		var fresh int64
 		type probe struct{ last, ready int64 }
 		var probesMu sync.Mutex
 		var probes []*probe
@@ -190,7 +192,13 @@ func init() {
 							gr.pan = "panic"
 						}
 					}()
-					gr.v, gr.err = m.Get(ctx, k.rt, names[r.Intn(len(names))])
+					name := names[r.Intn(len(names))]
+					if r.Intn(3) == 0 {
+						// a name nobody has asked for yet: the interest set of the type keeps growing, so a request built
+						// from an older copy of it shows up as a shrinking name list on the wire
+						name = fmt.Sprintf("fresh-%d", atomic.AddInt64(&fresh, 1))
+					}
+					gr.v, gr.err = m.Get(ctx, k.rt, name)
 				}()
 				cancel()
 				if cl, ok := gr.v.(*xdsresource.ClusterResource); ok && cl != nil && gr.err == nil {
@@ -335,13 +343,36 @@ func init() {
 		if !res.Unfinished {
 			// the wire, once quiet: per stream and type the listed names never shrink (nothing is evicted here), and the last
 			// request of every subscribed type on the live stream lists exactly the interest set
-			m.VerifFlushMarker("stress-end")
-			if live := ads.stream(-1); live != nil {
-				live.waitMarker("stress-end", 3*time.Second)
+			// wait until the client is quiet: no reconnect in progress (the receiver is reading the newest stream and no
+			// newer one appears) and everything queued has been sent on it
+			var live *fakeStream
+			quiet := false
+			for dl := time.Now().Add(5 * time.Second); time.Now().Before(dl); {
+				n := ads.numStreams()
+				live = ads.stream(-1)
+				if live == nil || !live.waitRecvEntered(1, time.Second) {
+					continue
+				}
+				tag := fmt.Sprintf("stress-end-%d", n)
+				if !m.VerifFlushMarker(tag) || !live.waitMarker(tag, time.Second) {
+					continue
+				}
+				time.Sleep(20 * time.Millisecond)
+				if ads.numStreams() == n && m.VerifPending() == 0 {
+					quiet = true
+					break
+				}
 			}
 			for i := 0; i < ads.numStreams(); i++ {
 				prev := map[string]map[string]bool{}
+				first := map[string]bool{}
 				for _, q := range ads.stream(i).sentCopy() {
+					if i > 0 && !first[q.TypeUrl] {
+						// the re-subscription the sender builds when it picks a new stream up is fresher than the requests
+						// still queued behind it (built earlier, sent later): it is not part of the monotone sequence
+						first[q.TypeUrl] = true
+						continue
+					}
 					cur := map[string]bool{}
 					for _, n := range q.ResourceNames {
 						cur[n] = true
@@ -355,7 +386,8 @@ func init() {
 					prev[q.TypeUrl] = cur
 				}
 			}
-			if live := ads.stream(-1); live != nil {
+			res.Quiet = quiet
+			if live != nil && quiet {
 				lastOf := map[string][]string{}
 				for _, q := range live.sentCopy() {
 					lastOf[q.TypeUrl] = q.ResourceNames
